@@ -28,9 +28,9 @@ RULE = (
 EXHAUSTIVE_SUBSPACES = ["relation of every circuit of the pipeline re-checked after every single step"]
 ASSUMPTIONS = ["reference interpreter vf/ref.py", "constrained raw leaves pushed out of their domain by a gradient step are re-drawn in place (counted as an update)"]
 FLOOR = {"upd:sgd-operand": 1, "upd:adam-derived": 1, "upd:reset-operand": 1, "upd:reset-derived": 1, "upd:load-state-dict": 1, "upd:inplace": 1,
-         "upd:scale": 1, "ccp:pointer-fold-idx": 1, "relations_checked": 200, "storage_checked": 20}
+         "upd:scale": 1, "upd:toggle-eval": 1, "ccp:pointer-fold-idx": 1, "relations_checked": 200, "storage_checked": 20}
 
-STEPS = ["sgd-operand", "adam-derived", "reset-operand", "reset-derived", "load-state-dict", "inplace", "scale"]
+STEPS = ["sgd-operand", "adam-derived", "reset-operand", "reset-derived", "load-state-dict", "inplace", "scale", "toggle-eval", "no-grad-eval"]
 
 
 def plan(tier, seed):
@@ -88,10 +88,36 @@ def run_case(case) -> Result:
     tol = "fft" if any("p:PolynomialProduct" in structs.circuit_features(c) for c in circuits) else "exact"
 
     def check_relations(step):
-        for c in derived:
-            ok = C.check_value(res, c, comp, comp.get_compiled_circuit(c), pools[id(c)], sr, f"{tag} after {step}: {c.operation.operator.name}", tol)
+        # every circuit of the pipeline (operands too: the map must keep pointing at the storage
+        # the operand really reads) against the reference under the current values
+        for c in circuits:
+            what = c.operation.operator.name if c.operation is not None else "operand"
+            ok = C.check_value(res, c, comp, comp.get_compiled_circuit(c), pools[id(c)], sr, f"{tag} after {step}: {what}", tol)
             res.count("relations_checked")
             if not ok:
+                return False
+        # operator-level relations computed from the *operands'* references (independent of the
+        # symbolic structure of the derived circuit)
+        for c in derived:
+            X = pools[id(c)]
+            if X is None:
+                continue
+            op = c.operation.operator.name
+            ops = c.operation.operands
+            if op == "MULTIPLICATION" and all(structs.circuit_scope(o) == structs.circuit_scope(c) for o in ops):
+                (r1, a1), (r2, a2) = C.reference(ops[0], comp, X), C.reference(ops[1], comp, X)
+                from vf.props.c04 import expected_product
+
+                e, sc_ = expected_product(r1, r2), expected_product(a1, a2)
+            elif op == "CONJUGATION":
+                r1, a1 = C.reference(ops[0], comp, X)
+                e, sc_ = np.conj(r1), a1
+            else:
+                continue
+            if not np.all(np.isfinite(sc_)):
+                continue
+            res.count("operator_relations_checked")
+            if not C.check_expected(res, comp.get_compiled_circuit(c), X, e, sc_, sr, f"{tag} after {step}: {op} vs operands", tol, vclass="relation-mismatch"):
                 return False
         return True
 
@@ -135,6 +161,17 @@ def run_case(case) -> Result:
                 ccb.load_state_dict(sd)
             elif step == "inplace":
                 tie.revalue(comp, root, np.random.default_rng(rng.getrandbits(32)), rng.choice(["normal", "small"]))
+            elif step == "toggle-eval":
+                # switching between eval() and train() mode is not an update, but caches keyed on it
+                # must not survive the next update
+                mode = rng.random() < 0.5
+                for c in circuits:
+                    comp.get_compiled_circuit(c).train(mode)
+            elif step == "no-grad-eval":
+                with torch.no_grad():
+                    for c in circuits:
+                        x = pools[id(c)]
+                        comp.get_compiled_circuit(c)(C.to_tensor(x)) if x is not None else comp.get_compiled_circuit(c)()
             elif step == "scale":
                 for p in learn:
                     if rng.random() < 0.5:
